@@ -62,6 +62,22 @@ def _(u):
         items = [u.run(DS, "ExtraKeyDataset.__getitem__", i, selfobj=ds, record=False) for i in chunk]
         batch = u.run(DS, "TensorDictDataset.collate_fn", items, record=False)
         _check_batch(u, f"chunk{c}", batch, td, chunk, D, extra=extra)
+    # history: the SAME base dataset is wrapped again with new values (RolloutBaseline.wrap_dataset after a baseline
+    # update) after items have already been read through the first wrapper: the new values must be the ones returned
+    extra2 = u.tensor("extra_second_wrap", (NDATA,), "f")
+    ds2 = u.obj(DS, "ExtraKeyDataset")
+    u.run(DS, "ExtraKeyDataset.__init__", base, extra2, selfobj=ds2, record=False)
+    for c, chunk in enumerate(CHUNKS[1:3]):
+        items = [u.run(DS, "ExtraKeyDataset.__getitem__", i, selfobj=ds2, record=False) for i in chunk]
+        batch = u.run(DS, "TensorDictDataset.collate_fn", items, record=False)
+        _check_batch(u, f"rewrap.chunk{c}", batch, td, chunk, D, extra=extra2)
+    # ... and wrapping the wrapper (nested) as well
+    ds3 = u.obj(DS, "ExtraKeyDataset")
+    extra3 = u.tensor("extra_nested_wrap", (NDATA,), "f")
+    u.run(DS, "ExtraKeyDataset.__init__", ds2, extra3, selfobj=ds3, record=False)
+    items = [u.run(DS, "ExtraKeyDataset.__getitem__", i, selfobj=ds3, record=False) for i in CHUNKS[2]]
+    batch = u.run(DS, "TensorDictDataset.collate_fn", items, record=False)
+    _check_batch(u, "nested.chunk", batch, td, CHUNKS[2], D, extra=extra3)
 
 
 @unit("dataset.fast", file=DS, func="FastTdDataset.__getitems__", props=("C17",))
